@@ -53,3 +53,21 @@ package zenodb
 //@   at call OffsetsBySource).Advance assert advance_from_file_header: callarg0 == walOffs && walErr == nil
 //@   ensures filestore_offsets_win: result2 == nil && existingFileName != "" && walErr == nil ==> result1 == adv
 //@   loop 1 invariant no_file_yet: existingFileName == "" || walErr != nil
+
+// C17: the shared scan feeds every coalesced iteration that is still running exactly once per row, whatever the other
+// iterations do: one that stops early (LIMIT) is removed and never fed again, and its removal does not make any other
+// iteration miss the row. (callsOn(it, "onValue") counts the calls of it.onValue.)
+//@ func (*DB).doProcessIterations$2
+//@   requires distinct: forall j :: forall k :: has(remainingIterations, j) && has(remainingIterations, k) && j != k ==> remainingIterations[j] != remainingIterations[k]
+//@   requires nonnil: forall k :: has(remainingIterations, k) ==> remainingIterations[k] != nil
+//@   modifies *
+//@   ensures fed_once: result1 == nil ==> forall k :: old(has(remainingIterations, k)) ==> callsOn(old(remainingIterations[k]), "onValue") == old(callsOn(remainingIterations[k], "onValue")) + 1
+//@   ensures stopped_removed: result1 == nil ==> forall k :: old(has(remainingIterations, k)) && !lastretOn(old(remainingIterations[k]), "onValue", 0) ==> !has(remainingIterations, k)
+//@   ensures running_kept: result1 == nil ==> forall k :: old(has(remainingIterations, k)) && lastretOn(old(remainingIterations[k]), "onValue", 0) ==> has(remainingIterations, k) && remainingIterations[k] == old(remainingIterations[k])
+//@   ensures nothing_added: forall k :: has(remainingIterations, k) ==> old(has(remainingIterations, k))
+//@   loop 0 invariant subset: forall k :: has(remainingIterations, k) ==> old(has(remainingIterations, k)) && remainingIterations[k] == old(remainingIterations[k])
+//@   loop 0 invariant unvisited_intact: forall k :: old(has(remainingIterations, k)) && !visited(k) ==> has(remainingIterations, k)
+//@   loop 0 invariant visited_old: forall k :: visited(k) ==> old(has(remainingIterations, k))
+//@   loop 0 invariant fed: forall k :: old(has(remainingIterations, k)) ==> callsOn(old(remainingIterations[k]), "onValue") == old(callsOn(remainingIterations[k], "onValue")) + (visited(k) ? 1 : 0)
+//@   loop 0 invariant stopped: forall k :: visited(k) && !lastretOn(old(remainingIterations[k]), "onValue", 0) ==> !has(remainingIterations, k)
+//@   loop 0 invariant running: forall k :: visited(k) && lastretOn(old(remainingIterations[k]), "onValue", 0) ==> has(remainingIterations, k)
